@@ -179,6 +179,7 @@ def concrete_verdict(kinds):
 
 SLICES = {
     "ops": ["IDENTIFIER", "NUMBER", "PLUS", "MINUS", "STAR", "SLASH", "COLON", "STAR_STAR", "PIPE", "TILDE", "EQUAL_EQUAL", "LESS", "LEFT_PAREN", "RIGHT_PAREN"],
+    "cmp": ["IDENTIFIER", "LEFT_BRACE", "RIGHT_BRACE", "EQUAL_EQUAL", "BANG_EQUAL", "LESS", "GREATER_EQUAL", "PLUS"],
     "calls": ["IDENTIFIER", "LEFT_PAREN", "RIGHT_PAREN", "COMMA", "EQUAL", "NUMBER", "STRING", "PLUS", "LEFT_BRACKET", "RIGHT_BRACKET", "LEFT_BRACE", "RIGHT_BRACE"],
 }
 
@@ -866,9 +867,10 @@ def run(tier, seed):
         "formulae.expr.*", "formulae.token.Token", "formulae.resolver.Resolver (only to decide rejection of candidate counterexamples)",
     ]
     if tier == "quick":
-        N, NP, L_full, L_multi, NS_ops, NS_calls = 5, 4, 3, 4, 6, 7
+        N, NP, L_full, L_multi, NS_ops, NS_calls, NS_cmp = 5, 4, 3, 4, 5, 7, 7
     else:
-        N, NP, L_full, L_multi, NS_ops, NS_calls = 6, 5, 4, 5, 7, 9
+        N, NP, L_full, L_multi, NS_ops, NS_calls, NS_cmp = 6, 5, 4, 5, 7, 9, 8
+    NS_cmp = int(os.environ.get("C01_NS_CMP", NS_cmp))
     NS_ops = int(os.environ.get("C01_NS_OPS", NS_ops))
     NS_calls = int(os.environ.get("C01_NS_CALLS", NS_calls))
     N = int(os.environ.get("C01_N", N))
@@ -878,7 +880,7 @@ def run(tier, seed):
     rep.bounds = {
         "H1 parser: sentence length (tokens, excluding EOF)": f"0..{N} over all {len(KINDS)} token kinds (kinds are solver variables)",
         "H1 redundant-parentheses re-parse": f"sentences up to {NP} tokens",
-        "H1 slices (restricted alphabets, longer sentences)": f"operator slice {SLICES['ops']} up to {NS_ops} tokens; call slice {SLICES['calls']} up to {NS_calls} tokens",
+        "H1 slices (restricted alphabets, longer sentences)": f"operator slice {SLICES['ops']} up to {NS_ops} tokens; call slice {SLICES['calls']} up to {NS_calls} tokens; comparison-in-braces slice {SLICES['cmp']} up to {NS_cmp} tokens",
         "H2 scanner: string length, full alphabet": f"1..{L_full} over {len(ALPHABET_FULL)} characters {''.join(ALPHABET_FULL)!r}",
         "H2 scanner: string length, multi-character-token alphabet": f"1..{L_multi} over {''.join(ALPHABET_MULTI)!r}",
         "H2 scanner: keyword-literal slice": "all strings of length 4 over 'TtRrUuEeNnOo'" + ("" if tier == "quick" else " and of length 5 over 'FfAaLlSsEe'"),
@@ -898,7 +900,7 @@ def run(tier, seed):
     jobs = []
     for n in range(N, -1, -1):
         jobs.append({"kind": "h1", "n": n, "parens": n <= NP})
-    for alph, lo, hi in (("ops", N + 1, NS_ops), ("calls", N + 1, NS_calls)):
+    for alph, lo, hi in (("ops", N + 1, NS_ops), ("calls", N + 1, NS_calls), ("cmp", N + 1, NS_cmp)):
         for n in range(hi, lo - 1, -1):
             jobs.append({"kind": "h1", "n": n, "parens": False, "alphabet": alph})
     for l in range(L_multi, L_full, -1):
